@@ -668,11 +668,32 @@ func NewNXActionCTNAT() *NXActionCTNAT {
 }
 
 func (a *NXActionCTNAT) Len() (n uint16) {
-	a.Length = ((a.Length + 7) / 8) * 8
-	return a.Length
+	// sized from the range fields that are present, so that asking for the size between two
+	// SetRange* calls cannot leave a rounded-up intermediate value behind
+	n = 16
+	if a.rangeIPv4Min != nil {
+		n += 4
+	}
+	if a.rangeIPv4Max != nil {
+		n += 4
+	}
+	if a.rangeIPv6Min != nil {
+		n += 16
+	}
+	if a.rangeIPv6Max != nil {
+		n += 16
+	}
+	if a.rangeProtoMin != nil {
+		n += 2
+	}
+	if a.rangeProtoMax != nil {
+		n += 2
+	}
+	return ((n + 7) / 8) * 8
 }
 
 func (a *NXActionCTNAT) MarshalBinary() (data []byte, err error) {
+	a.Length = a.Len()
 	data = make([]byte, a.Len())
 	b := make([]byte, a.NXActionHeader.Len())
 	n := 0
@@ -788,11 +809,10 @@ func (a *NXActionCTNAT) UnmarshalBinary(data []byte) error {
 	a.NXActionHeader = new(NXActionHeader)
 	err := a.NXActionHeader.UnmarshalBinary(data[n:])
 	n += int(a.NXActionHeader.Len())
-	if a.Length%8 != 0 {
-		// Len() rounds the length up to a multiple of 8; for 65529..65535 that wraps to 0
-		return errors.New("the NXActionCTNAT length is not a multiple of 8")
+	if a.Length%8 != 0 || a.Length < 16 {
+		return errors.New("the NXActionCTNAT length is not a multiple of 8 or too small")
 	}
-	if len(data) < int(a.Len()) {
+	if len(data) < int(a.Length) {
 		return errors.New("the []byte is too short to unmarshal a full NXActionCTNAT message")
 	}
 	// Skip padding bytes
